@@ -43,9 +43,9 @@ def run(run, ix, tier):
     run.rule('C-R2', floor=3, desc='rounded operands in monotone positions')
     run.rule('C-R3', floor=25, desc='intervals passed between interval functions')
     run.rule('C-R4', floor=6, desc='outward perturbation idiom of cos/sin')
-    run.rule('C-R5', floor=15, desc='directed kernels honour the mode')
+    run.rule('C-R5', floor=10, desc='directed kernels honour the mode')
     run.rule('C-R6', floor=6, desc='conversions into intervals')
-    run.rule('C-R5g', floor=15, desc='directed kernels: no weakly guarded undirected intermediate at the final rounding')
+    run.rule('C-R5g', floor=10, desc='directed kernels: no weakly guarded undirected intermediate at the final rounding')
     common(run, ix, complex_=False)
     check_finalize(run, ix)
     check_directed_kernels(run, ix)
@@ -54,6 +54,7 @@ def run(run, ix, tier):
     iv_rules.check_composition(run, ix, False)
     # C-R14: endpoints taken directly from transcendental kernels
     check_transcendental_endpoints(run, ix)
+    check_outward_helper(run, ix)
     # literal forms (rules of the C07 module, reported here as C-R6)
     from ..report import SubRun
     from . import c07
@@ -340,14 +341,20 @@ def _eval_sel(test, v, rounding, sign, rnd):
     return ev(test)
 
 
-def check_directed_kernels(run, ix):
+def check_directed_kernels(run, ix, callers=('mpi_',)):
     """every real kernel that the interval layer calls with an explicit
     round_floor/round_ceiling honours the caller's mode at its final rounding
-    on every path (mode term == caller's)"""
+    on every path (mode term == caller's).  `callers`: name prefixes of the interval functions whose calls count
+    (C14: the real interval functions; C15: the rectangle functions)"""
     eng = get_round_engine(ix)
     m = ix.module(LIBMPI)
     directed = {}
     for f in m.funcs.values():
+        top = f
+        while top.parent is not None:
+            top = top.parent
+        if not top.name.startswith(tuple(callers)):
+            continue
         pname = 'prec' if 'prec' in f.params else None
         ka = eng.analyse_detail(f, pname)
         for call, g, amode, opvals, w in ka.calls:
@@ -469,13 +476,17 @@ def check_transcendental_endpoints(run, ix):
     run.rule('C-R14', floor=5, desc='endpoints taken straight from approximate (transcendental) kernels')
     m = ix.module(LIBMPI)
     for f in sorted(m.funcs.values(), key=lambda g: g.lineno):
-        if f.parent is not None or not f.name.startswith('mpi_'):
+        if f.parent is not None or not f.name.startswith(('mpi_', 'mpci_')):
             continue
         kernels = {}
         for x in _walk_own(f.node):
             if isinstance(x, ast.Call) and isinstance(x.func, ast.Name) and x.func.id in TRANSCENDENTAL and \
                     any(norm(a) in ('round_floor', 'round_ceiling') for a in x.args):
                 kernels.setdefault(x.func.id, x)
+            if isinstance(x, ast.Call) and isinstance(x.func, ast.Name) and x.func.id == 'mpf_outward' and x.args \
+                    and isinstance(x.args[0], ast.Name) and x.args[0].id in TRANSCENDENTAL:
+                run.ok('C-R14', '%s: %s through mpf_outward (moved outward before the directed rounding)'
+                       % (f.name, x.args[0].id))
         if not kernels:
             continue
         widened = any(nf.name == 'finalize' for nf in f.nested)
@@ -656,3 +667,81 @@ def check_near_one_guard(run, ix):
                          'the tiny t is returned as the logarithm' % wrong, line=g.lineno))
     else:
         run.ok('C-R18', 'guard `%s` holds only for mag in {0, 1}' % norm(g.test))
+
+
+# --------------------------------------------------------------------------- C-R19
+def check_outward_helper(run, ix):
+    """C-R19.  mpf_outward is what makes the transcendental endpoints bounds: it must (a) evaluate the kernel with
+    extra bits (wp = prec + K), (b) multiply the value by 1 + 2**(g-wp) when the value is negative and the mode is
+    floor or positive and the mode is ceiling, by 1 - 2**(g-wp) otherwise, with 0 < g < K (the allowance for the
+    kernel's error, in units of the extended precision), (c) round the product with the caller's precision and
+    mode, and (d) hand a value back unchanged only when it is special / zero or under the exact-at-integers flag."""
+    run.rule('C-R19', floor=4, desc='mpf_outward moves the kernel value outward before the directed rounding')
+    f = ix.func(LIBMPI, 'mpf_outward')
+    P = f.params            # f, args, prec, rounding, ...
+    body = f.node
+    wp = [a for a in _walk_own(body) if isinstance(a, ast.Assign) and norm(a.targets[0]) == 'wp']
+    K = None
+    if wp and isinstance(wp[0].value, ast.BinOp) and isinstance(wp[0].value.op, ast.Add):
+        l, r = wp[0].value.left, wp[0].value.right
+        if norm(l) == P[2] and isinstance(r, ast.Constant):
+            K = r.value
+    if K is None or K < 12:
+        run.fail(Finding('C-R19', LIBMPI, 'mpf_outward', norm(wp[0]) if wp else 'def mpf_outward',
+                         'the kernel is not evaluated with at least 12 extra bits', line=f.lineno))
+    else:
+        run.ok('C-R19', 'mpf_outward evaluates the kernel at prec + %d bits' % K)
+    # (b) the two factors and their selection
+    sel = [i for i in _walk_own(body) if isinstance(i, ast.If) and 'round_floor' in norm(i.test)]
+    ok_b = False
+    why = 'selection of the outward factor not found'
+    if sel:
+        i = sel[0]
+        t = norm(i.test)
+        want = 'bool(sign) == (%s == round_floor)' % P[3]
+
+        def factor(stmts):
+            for a in stmts:
+                if isinstance(a, ast.Assign) and isinstance(a.value, ast.Call) and norm(a.value.func) == 'from_man_exp':
+                    m = a.value.args[0]
+                    if isinstance(m, ast.BinOp) and isinstance(m.op, (ast.Add, ast.Sub)) and \
+                            norm(m.left) == 'MPZ_ONE << wp' and isinstance(m.right, ast.BinOp) and \
+                            norm(m.right.left) == 'MPZ_ONE' and isinstance(m.right.right, ast.Constant) and \
+                            norm(a.value.args[1]) == '-wp':
+                        return ('+' if isinstance(m.op, ast.Add) else '-', m.right.right.value, norm(a.targets[0]))
+            return None
+        fb, fe = factor(i.body), factor(i.orelse)
+        if t != want:
+            why = 'the outward side is chosen by `%s`; a bound needs `%s`' % (t, want)
+        elif not fb or not fe or fb[0] != '+' or fe[0] != '-':
+            why = 'the factor is not 1 + 2**(g-wp) on the outward side and 1 - 2**(g-wp) on the other'
+        elif K is not None and not (0 < fb[1] < K and 0 < fe[1] < K):
+            why = 'the allowance 2**%s units is not between one unit and the extra precision' % fb[1]
+        else:
+            ok_b = True
+            fac = fb[2]
+    if ok_b:
+        run.ok('C-R19', 'mpf_outward: factor 1 +- 2**(%d - wp), larger magnitude on the outward side' % fb[1])
+    else:
+        run.fail(Finding('C-R19', LIBMPI, 'mpf_outward', norm(sel[0].test) if sel else 'def mpf_outward', why,
+                         line=f.lineno))
+    # (c) the final rounding
+    rets = [r for r in _walk_own(body) if isinstance(r, ast.Return)]
+    fin = [r for r in rets if isinstance(r.value, ast.Call) and norm(r.value.func) == 'mpf_mul']
+    if len(fin) == 1 and len(fin[0].value.args) == 4 and norm(fin[0].value.args[0]) == 'v' and \
+            norm(fin[0].value.args[2]) == P[2] and norm(fin[0].value.args[3]) == P[3]:
+        run.ok('C-R19', 'mpf_outward returns mpf_mul(v, factor, %s, %s)' % (P[2], P[3]))
+    else:
+        run.fail(Finding('C-R19', LIBMPI, 'mpf_outward', norm(fin[0]) if fin else 'def mpf_outward',
+                         'the widened value is not rounded with the caller\'s precision and mode', line=f.lineno))
+    # (d) pass-through returns
+    for r in rets:
+        if r in fin:
+            continue
+        par = getattr(r, '_parent', None)
+        t = norm(par.test) if isinstance(par, ast.If) else ''
+        if norm(r.value) == 'v' and (t == 'not man' or (len(P) > 4 and t.startswith(P[4] + ' and '))):
+            run.ok('C-R19', 'mpf_outward: `%s` only under `%s`' % (norm(r), t))
+        else:
+            run.fail(Finding('C-R19', LIBMPI, 'mpf_outward', norm(r), 'the kernel value is handed back without '
+                             'widening under `%s`' % (t or 'no condition'), line=r.lineno))
